@@ -128,6 +128,11 @@ pub open spec fn is_budget<S: Stream<Item = RuntimeResult<()>>>(s: S, limit: Opt
             && s.at(l as int) == Err::<(), RuntimeViolation>(RuntimeViolation::MaximumSearch),
     }
 }
+/// C10's reading: with a limit configured the budget is FINITE and ends in a violation (so every loop that
+/// consumes an item per step, and stops at the violation, terminates), whatever the exact count
+pub open spec fn is_finite_budget<S: Stream<Item = RuntimeResult<()>>>(s: S, limit: Option<usize>) -> bool {
+    limit is Some ==> (s.slen() matches Len::Fin(n) && n >= 1 && s.at(n - 1) is Err)
+}
 pub type BudgetIter = Either<Repeat<RuntimeResult<()>>, Chain<Take<Repeat<RuntimeResult<()>>>, Once<RuntimeResult<()>>>>;
 
 // @@EXTRACTED@@
